@@ -202,6 +202,21 @@ def check_case(case):
     if isinstance(built, alpha.Raised):
         return [V(f"{PROP}|{name}|symptom=config-{built!r}", f"building parameters raised {built.name}: {built.msg}")], True, None, 0
     fn, kw, _ = built
+    if case.get("pre") is not None:
+        # an earlier call of the same test in the same process: either on its own (longer) record, or on the very array
+        # objects the judged call then receives refilled in place (an acquisition buffer)
+        pre = case["pre"]
+        if case.get("refill"):
+            now = {k: kw[k].copy() for k in ("inp", "zinp", "lon", "lat") if isinstance(kw.get(k), np.ndarray)}
+            pb = G.build(name, cfg, pre["x"] if not pos else list(range(n)), how, z=pre.get("z"), secs=case.get("secs"), lon=pre.get("lon"), lat=pre.get("lat"))[1]
+            for k in now:
+                kw[k][...] = pb[k]
+            alpha.call(fn, **kw)
+            for k, v in now.items():
+                kw[k][...] = v
+        else:
+            pb = G.build(name, cfg, pre["x"] if not pos else list(range(len(pre["lon"]))), how, z=pre.get("z"), secs=pre.get("secs"), lon=pre.get("lon"), lat=pre.get("lat"))
+            alpha.call(pb[0], **pb[1])
     out = alpha.call(fn, **kw)
     if isinstance(out, alpha.Raised):
         return [V(f"{PROP}|{name}|symptom=raises:{out.name}", f"{name} raised {out.name}: {out.msg}", None, repr(out))], has_missing, ("exc", out.name), 0
@@ -259,6 +274,21 @@ def run_task(task, acc):
                     yield dict(fn=name, cfg=cfg, x=list(x), how=how, secs=alpha.regular_secs(len(x)))
                 long_x = alpha.debruijn(tuple(al), 4) * 3
                 yield dict(fn=name, cfg=cfg, x=list(long_x), how=how, secs=alpha.regular_secs(len(long_x)))
+                if name == "attenuated_signal_test" or how == "list":
+                    continue  # (the oracle for windowed statistics is quadratic; lists only differ by the carrier)
+                big = list(alpha.xl(tuple(al), 3000, 4))
+                yield dict(fn=name, cfg=cfg, x=big, how=how, secs=alpha.regular_secs(len(big)))
+                # the same long array refilled in place between two calls (missing pattern moved)
+                other = big[7:] + big[:7]
+                yield dict(fn=name, cfg=cfg, x=big, how=how, secs=alpha.regular_secs(len(big)), pre=dict(x=other), refill=True)
+                # a longer record with gaps around the judged record's last index, then the judged (gap-free) record
+                for ln in (600, 1500):
+                    clean = [s for s in big if not miss(s)][:ln]
+                    longer = [s for s in big if not miss(s)][: ln + 150]
+                    for j in (ln - 3, ln - 2, ln - 1, ln, ln + 1):
+                        longer[j] = NAN
+                    yield dict(fn=name, cfg=cfg, x=clean, how=how, secs=alpha.regular_secs(ln),
+                               pre=dict(x=longer, secs=alpha.regular_secs(ln + 150)))
         run_cases(acc, gen(), check_case)
     elif kind == "clim":
         _, i, n = task
@@ -290,6 +320,10 @@ def run_task(task, acc):
                             zl = [None if s == NAN else s for s in z]
                             if None in xl or None in zl:
                                 yield dict(fn="density_inversion_test", cfg=cfg, x=xl, z=zl, how="list")
+            bx = list(alpha.xl((1.0, 0.0, NAN, 0.5), 3000, 4))
+            bz = [float(10 + j) if p else NAN for j, p in enumerate(alpha.xl((True, True, False, True, True), 3000, 3))]
+            yield dict(fn="density_inversion_test", cfg=cfg, x=bx, z=bz, how="nd")
+            yield dict(fn="density_inversion_test", cfg=cfg, x=bx, z=bz, how="nd", pre=dict(x=bx[5:] + bx[:5], z=bz[9:] + bz[:9]), refill=True)
         run_cases(acc, gen(), check_case)
     elif kind == "pos":
         _, name, ci, n = task
@@ -309,4 +343,11 @@ def run_task(task, acc):
                             if name == "speed_test" and k >= 2 and how == "nd":
                                 rep = [alpha.T0 + 3600 * (j - (1 if j >= 2 else 0)) for j in range(k)]  # a repeated timestamp
                                 yield dict(fn=name, cfg=cfg, lon=lon, lat=lat, secs=rep, how=how)
+            pres = list(alpha.xl(((True, True), (True, True), (True, False), (False, True), (False, False)), 2500, 3))
+            for pat in patterns:
+                lon = [pat[j % 2][0] if p[0] else NAN for j, p in enumerate(pres)]
+                lat = [pat[j % 2][1] if p[1] else NAN for j, p in enumerate(pres)]
+                yield dict(fn=name, cfg=cfg, lon=lon, lat=lat, secs=alpha.regular_secs(len(pres), 3600), how="nd")
+                yield dict(fn=name, cfg=cfg, lon=lon, lat=lat, secs=alpha.regular_secs(len(pres), 3600), how="nd",
+                           pre=dict(lon=lon[3:] + lon[:3], lat=lat[4:] + lat[:4]), refill=True)
         run_cases(acc, gen(), check_case)
